@@ -1,7 +1,7 @@
 //! C04 (threaded runtime): routing order - first matching host, first matching route, default, 404.
 
 use humphrey::http::{Request, Response, StatusCode};
-use humphrey::krauss::wildcard_match;
+use hvcommon::routelab::glob_ref;
 use humphrey::stream::Stream;
 use humphrey::{App, SubApp};
 use hvcommon::args::Args;
@@ -69,7 +69,7 @@ pub fn main(args: &Args) {
                 if k < 2 {
                     r.sample(routelab::app_json(&m));
                 }
-                routelab::run_app_cases(&mut r, addr, &m, &mut rng, nreq, wildcard_match, "threaded", &["c04".to_string(), "--seed".into(), seed.to_string(), "--app".into(), k.to_string()]);
+                routelab::run_app_cases(&mut r, addr, &m, &mut rng, nreq, glob_ref, "threaded", &["c04".to_string(), "--seed".into(), seed.to_string(), "--app".into(), k.to_string()]);
             }
             tx.send(()).ok();
             if only.is_some() {
@@ -84,5 +84,5 @@ pub fn main(args: &Args) {
         total.nontrivial(1);
         total.nontrivial(2);
     }
-    total.write(out, "generated applications with 0..4 host sub-apps x 0..6 routes (+ 0..3 websocket routes) each and a default sub-app, patterns from literals, prefixes, suffixes, infixes, several and adjacent `*`, overlapping and shadowing; requests over Host {absent, exact, wildcard-matching, with port, non-matching, other case} x paths instantiated from registered patterns or random x {with, without query} x methods x extra headers; one request in ten is a WebSocket upgrade. distinct/non-trivial = requests whose path matches at least two registered routes (where order matters)", None, &["the match predicate of the reference router is the repository's own wildcard_match: C04 judges selection order and fall-through, C05 judges the matcher", "OPTIONS is not used as a method variant (it is answered by the library, see C01)"]);
+    total.write(out, "generated applications with 0..4 host sub-apps x 0..6 routes (+ 0..3 websocket routes) each and a default sub-app, patterns from literals, prefixes, suffixes, infixes, several and adjacent `*`, overlapping and shadowing; requests over Host {absent, exact, wildcard-matching, with port, non-matching, other case} x paths instantiated from registered patterns or random x {with, without query} x methods x extra headers; one request in ten is a WebSocket upgrade. distinct/non-trivial = requests whose path matches at least two registered routes (where order matters)", None, &["the match predicate of the reference router is an independent dynamic-programming glob matcher (the C05 oracle), so a wrong matcher is reported here as a wrong choice as well", "OPTIONS is not used as a method variant (it is answered by the library, see C01)"]);
 }
